@@ -8,7 +8,9 @@ package main
 
 import (
 	"fmt"
+	"os"
 	"path/filepath"
+	"runtime/pprof"
 	"sort"
 	"strings"
 	"sync"
@@ -54,6 +56,65 @@ func failsFn(tries int) func(*Program) bool {
 
 func main() {
 	a := vlib.ParseArgs()
+	tok := extraTokens(a.Extra)
+	_, isChild := tok["child"]
+	_, isOne := tok["one"]
+	if a.Replay != "" || isChild || isOne || os.Getenv("C20_INPROC") != "" {
+		childMain(a, tok)
+		return
+	}
+	parentMain(a, tok)
+}
+
+// plan returns the volume of a run.
+func plan(a vlib.Args, tok map[string]string) (perCell, nrand int) {
+	perCell, nrand = 60, 90
+	if a.Thorough() {
+		perCell, nrand = 500, 260
+	}
+	if _, ok := tok["search"]; ok && !a.Thorough() {
+		perCell *= 4
+	}
+	return
+}
+
+// genJob regenerates the i-th program of a run (the run draws one RNG fork per program, in order).
+func genJob(seed uint64, i, nrand int) *Program {
+	cells := allCells()
+	root := vlib.NewRNG(seed)
+	var r *vlib.RNG
+	for k := 0; k <= i; k++ {
+		r = root.Fork()
+	}
+	c := cells[i%len(cells)]
+	cfg := genCfg(r, c.nopool, c.cache, c.snappy, c.loc)
+	p := genProgram(r, cfg, r.Range(nrand/3, nrand))
+	p.Seed = seed
+	return p
+}
+
+func extraTokens(e string) map[string]string {
+	m := map[string]string{}
+	for _, t := range strings.Split(e, ",") {
+		t = strings.TrimSpace(t)
+		if t == "" {
+			continue
+		}
+		if i := strings.Index(t, "="); i >= 0 {
+			m[t[:i]] = t[i+1:]
+		} else {
+			m[t] = ""
+		}
+	}
+	return m
+}
+
+func childMain(a vlib.Args, tok map[string]string) {
+	if pf := os.Getenv("C20_PROF"); pf != "" {
+		f, _ := os.Create(pf)
+		pprof.StartCPUProfile(f)
+		defer pprof.StopCPUProfile()
+	}
 	res := vlib.NewResult("C20", a.Out, rule)
 	defer res.Write()
 
@@ -61,6 +122,16 @@ func main() {
 		p, err := loadProgram(a.Replay)
 		if err != nil {
 			fmt.Println("cannot load replay:", err)
+			return
+		}
+		if len(p.KOps) > 0 {
+			res.Eval("replay-k", true)
+			if _, f := runKProg(p.Cfg, p.KOps); f != "" {
+				fmt.Println("replay fails:", f)
+				res.Violate(f+" ["+p.Cfg.String()+"]", p)
+			} else {
+				fmt.Println("replay passes")
+			}
 			return
 		}
 		for i := 0; i < 3; i++ {
@@ -76,9 +147,22 @@ func main() {
 		return
 	}
 
+	if one, ok := tok["one"]; ok {
+		var i int
+		fmt.Sscanf(one, "%d", &i)
+		_, nrand := plan(a, tok)
+		p := genJob(a.Seed, i, nrand)
+		rr := runProgram(p)
+		res.Eval(one, true)
+		if d := rr.describe(); d != "" {
+			res.Violate(d+" ["+p.Cfg.String()+"]", p)
+		}
+		return
+	}
+
 	// corpus first
-	if strings.HasPrefix(a.Extra, "corpus=") {
-		files, _ := filepath.Glob(filepath.Join(strings.TrimPrefix(a.Extra, "corpus="), "*.json"))
+	if dir, ok := tok["corpus"]; ok {
+		files, _ := filepath.Glob(filepath.Join(dir, "*.json"))
 		sort.Strings(files)
 		for _, f := range files {
 			p, err := loadProgram(f)
@@ -93,14 +177,9 @@ func main() {
 		}
 	}
 
-	perCell, nrand := 12, 90
-	if a.Thorough() {
-		perCell, nrand = 200, 260
-	}
-	if strings.Contains(a.Extra, "search") && !a.Thorough() {
-		perCell *= 4
-	}
+	perCell, nrand := plan(a, tok)
 	cells := allCells()
+	tStart := time.Now()
 	root := vlib.NewRNG(a.Seed)
 	type job struct {
 		i int
@@ -111,9 +190,9 @@ func main() {
 	var wg sync.WaitGroup
 	var kmu sync.Mutex
 	var kcases []string
-	kcap := 1500
+	kcap := 6000
 	if a.Thorough() {
-		kcap = 6000
+		kcap = 12000
 	}
 	covered := map[string]int{}
 	var nviol int32
@@ -136,9 +215,12 @@ func main() {
 					res.Count(k, v)
 				}
 				kmu.Lock()
+				seenK := map[string]bool{}
 				for _, o := range rr.Kobs {
-					if len(kcases) < kcap {
-						kcases = append(kcases, renderKob(cfg, o))
+					t := renderKob(cfg, o)
+					if len(kcases) < kcap && !seenK[t] && len(seenK) < 8 {
+						seenK[t] = true
+						kcases = append(kcases, t)
 					}
 				}
 				kmu.Unlock()
@@ -180,6 +262,7 @@ func main() {
 	}
 	close(jobs)
 	wg.Wait()
+	res.Extra["p_phase_s"] = time.Since(tStart).Seconds()
 
 	// coverage of the configuration dimension: every cell must have been probed at its location
 	missing := []string{}
@@ -189,6 +272,11 @@ func main() {
 			missing = append(missing, name)
 		}
 	}
+	res.Count("config_cells_total", len(cells))
+	res.Count("config_cells_probed_at_their_location", len(cells)-len(missing))
+	if len(missing) == 0 {
+		res.Count("config_dimension_exhaustive", 1)
+	}
 	res.Extra["configuration_cells"] = len(cells)
 	res.Extra["configuration_cells_probed"] = len(cells) - len(missing)
 	res.Extra["exhaustive"] = len(missing) == 0
@@ -197,5 +285,74 @@ func main() {
 	if len(missing) > 0 {
 		fmt.Println("cells not probed:", missing)
 	}
-	res.WriteCases("From GL Require Import Corr.C20Run.", "c20case", "mismatches", kcases, 4)
+	// (K) programs for the model machine
+	nk := 3
+	if a.Thorough() {
+		nk = 20
+	}
+	type kjob struct {
+		cfg Cfg
+		ops []kop
+	}
+	var kjobs []kjob
+	for _, np := range []bool{false, true} {
+		for ca := 0; ca < NCache; ca++ {
+			for _, sn := range []bool{false, true} {
+				for j := 0; j < nk; j++ {
+					r := root.Fork()
+					cfg := genCfg(r, np, ca, sn, LocMem)
+					kjobs = append(kjobs, kjob{cfg, genKProg(r, r.Range(12, 40))})
+				}
+			}
+		}
+	}
+	if res.NViolations() > 0 {
+		// the implementation already failed the property oracle: do not run more programs on it
+		kjobs = nil
+		res.Count("kprog_skipped_after_violation", 1)
+	}
+	ktexts := make([]string, len(kjobs))
+	var wgk sync.WaitGroup
+	sem := make(chan struct{}, 16)
+	for i := range kjobs {
+		wgk.Add(1)
+		sem <- struct{}{}
+		go func(i int) {
+			defer wgk.Done()
+			defer func() { <-sem }()
+			text, f := runKProg(kjobs[i].cfg, kjobs[i].ops)
+			res.Count("kprog_programs", 1)
+			if f != "" {
+				res.Violate("model-vocabulary program: "+f+" ["+kjobs[i].cfg.String()+"]", &Program{Seed: a.Seed, Cfg: kjobs[i].cfg, KOps: kjobs[i].ops})
+				return
+			}
+			ktexts[i] = text
+		}(i)
+	}
+	wgk.Wait()
+	res.Extra["pk_phase_s"] = time.Since(tStart).Seconds()
+	// spread the (large) program cases evenly over the shards
+	sort.Strings(kcases)
+	var all []string
+	step := 1
+	if len(kjobs) > 0 {
+		step = len(kcases)/len(kjobs) + 1
+	}
+	ki := 0
+	for i, t := range kcases {
+		all = append(all, t)
+		if (i+1)%step == 0 && ki < len(ktexts) {
+			if ktexts[ki] != "" {
+				all = append(all, ktexts[ki])
+			}
+			ki++
+		}
+	}
+	for ; ki < len(ktexts); ki++ {
+		if ktexts[ki] != "" {
+			all = append(all, ktexts[ki])
+		}
+	}
+	kcases = all
+	res.WriteCases("From GL Require Import Corr.C20Run.", "c20case", "mismatches", kcases, 16)
 }
